@@ -134,11 +134,20 @@ func genC14(tier string, rng *Rng) {
 			emitCase(s, 16, stop, "eof")
 		}
 	}
+	genStreamCases(rng, n, 80)
+}
+
+// genStreamCases: random streams served with StreamRequestBody and a consumption program.
+func genStreamCases(rng *Rng, n int, wfPct int) {
+	probe := []byte("GET /probe HTTP/1.1\r\nHost: p\r\n\r\n")
+	emitCase := func(stream []byte, readSize, stop int, end string) {
+		runOp([]string{"sserve", "-", "0", end, hx(stream), genCuts(rng, len(stream)), strconv.Itoa(readSize), strconv.Itoa(stop)})
+	}
 	for i := 0; i < n; i++ {
 		k := 1 + rng.Intn(3)
 		var stream []byte
 		for j := 0; j < k; j++ {
-			stream = append(stream, genRequest(rng, genReqOpts{wellFormed: rng.Intn(5) != 0, maxBodyIdx: len(bodySizes), forceClose: false})...)
+			stream = append(stream, genRequest(rng, genReqOpts{wellFormed: rng.Intn(100) < wfPct, maxBodyIdx: len(bodySizes), forceClose: false})...)
 		}
 		if rng.Intn(3) != 0 {
 			stream = append(stream, probe...)
